@@ -107,7 +107,9 @@ func CallEndSessionEndpoint(ctx context.Context, request any, authFn any, caller
 	if err != nil {
 		return nil, err
 	}
-	client := caller.HttpClient()
+	// work on a copy: the caller's client (by default the package-wide
+	// httphelper.DefaultHTTPClient) must keep its own redirect policy
+	client := *caller.HttpClient()
 	client.CheckRedirect = func(_ *http.Request, _ []*http.Request) error {
 		return http.ErrUseLastResponse
 	}
@@ -158,7 +160,9 @@ func CallRevokeEndpoint(ctx context.Context, request any, authFn any, caller Rev
 	if err != nil {
 		return err
 	}
-	client := caller.HttpClient()
+	// work on a copy: the caller's client (by default the package-wide
+	// httphelper.DefaultHTTPClient) must keep its own redirect policy
+	client := *caller.HttpClient()
 	client.CheckRedirect = func(_ *http.Request, _ []*http.Request) error {
 		return http.ErrUseLastResponse
 	}
